@@ -14,13 +14,15 @@ the claim (see META["outside"]).  What is decided here:
 """
 from __future__ import annotations
 
+import gc
 import logging
 import threading
+import weakref
 from typing import List
 
 from vlib import fakedb, framework
 from vlib.framework import Harness
-from vlib.symx import assume
+from vlib.symx import assume, pick
 
 from sqlalchemy import exc as sa_exc
 from sqlalchemy import pool as sa_pool
@@ -31,7 +33,11 @@ PID = "C25"
 logging.disable(logging.CRITICAL)
 
 STEP_OPS = ["checkout", "checkout_creator_fails", "return", "return_reset_fails", "invalidate_return",
-            "soft_invalidate_return", "inc_overflow", "dec_overflow"]
+            "soft_invalidate_return", "inc_overflow", "dec_overflow",
+            # fairy.detach(); a live checkout dropped without close() (weakref finalizer); the finalizer of a fairy
+            # object that was already released (by detach / close / invalidate) running AFTER its pool slot has been
+            # checked out again
+            "detach", "drop_gc", "stale_after_detach", "stale_after_close", "stale_after_invalidate"]
 
 
 class _Srv(fakedb.FakeServer):
@@ -71,6 +77,8 @@ def _release(pool, live) -> None:
         pool._max_overflow = -1
         pool._overflow = 0
     for f in live:
+        if f is None:
+            continue
         try:
             rec = f._connection_record
             if rec is not None:
@@ -80,6 +88,21 @@ def _release(pool, live) -> None:
         except Exception:
             pass
     del live[:]
+
+
+def _unlist(f, *lists) -> None:
+    """Remove fairy ``f`` from the harness' own lists (entries become None)."""
+    for lst in lists:
+        for i in range(len(lst)):
+            if lst[i] is f:
+                lst[i] = None
+
+
+def _gone(r) -> bool:
+    """Has the object behind weakref ``r`` been finalized (after the caller dropped its last reference)?"""
+    if r() is not None:
+        gc.collect()
+    return r() is None
 
 
 def h_step(op: str, S: int, lifo: bool, idle: int, nreal: int, M: int, O: int, empties: List[bool],
@@ -113,11 +136,26 @@ def _step(live, box, op, S, lifo, idle, nreal, M, O, empties, which):
     pool = sa_pool.QueuePool(srv.connect, pool_size=S, max_overflow=-1, timeout=0, use_lifo=lifo)
     box.append(pool)
     # build the concrete part of the pre-state through the public API
+    zombie = []  # a fairy object that was released but is still referenced (its finalizer has not run yet)
+    if op.startswith("stale_"):
+        z = pool.connect()
+        live.append(z)
+        zrec = z._connection_record
+        if op == "stale_after_detach":
+            z.detach()
+        elif op == "stale_after_close":
+            z.close()
+        else:
+            z.invalidate()
+        zombie.append(z)
+        z = None
     fairies = [pool.connect() for _ in range(idle + nreal)]
     live.extend(fairies)
-    for i in range(idle):
+    holders = fairies[:nreal]
+    for i in range(nreal, nreal + idle):
         fairies[i].close()
-    holders = fairies[idle:]
+    if zombie and holders[0]._connection_record is not zrec:
+        return False  # (pre-state construction) the released slot is the one checked out again
     recs = list(pool._pool.queue)
     if len(recs) != idle:
         return False
@@ -228,12 +266,72 @@ def _step(live, box, op, S, lifo, idle, nreal, M, O, empties, which):
         r = pool._dec_overflow()
         return r is True and pool._overflow == O - 1 and pool.checkedin() == idle
 
+    if op.startswith("stale_"):
+        # the stale finalizer must not touch the record that the newer checkout holds
+        h0 = holders[0]
+        rec0 = h0._connection_record
+        ref0 = rec0.fairy_ref
+        rb0 = h0.dbapi_connection.rollbacks
+        zr = weakref.ref(zombie[0])
+        _unlist(zombie[0], live)
+        del zombie[:]
+        assume(_gone(zr))  # the stale finalizer has run now
+        if pool._overflow != O or pool.checkedin() != idle or pool.checkedout() != held0:
+            return False
+        if list(pool._pool.queue) != recs:
+            return False
+        if rec0.fairy_ref is not ref0 or ref0() is not h0 or h0._connection_record is not rec0:
+            return False
+        c0 = h0.dbapi_connection
+        if c0 is not held_conns[0] or c0.closed or c0.rollbacks != rb0 or rec0.dbapi_connection is not c0:
+            return False
+        return srv.creator_calls == calls0 and _inv(pool, S, M, pool._overflow, idle)
+
+    if op == "detach":
+        fairy = holders[which]
+        rec = fairy._connection_record
+        conn = fairy.dbapi_connection
+        fairy.detach()
+        O1 = pool._overflow
+        idle1 = pool.checkedin()
+        if not _inv(pool, S, M, O1, idle1) or pool.checkedout() != held0 - 1:
+            return False
+        if idle < S:
+            # the (now empty) record takes a slot of the queue
+            if idle1 != idle + 1 or O1 != O or list(pool._pool.queue) != recs + [rec]:
+                return False
+        else:
+            if idle1 != idle or O1 != O - 1 or list(pool._pool.queue) != recs:
+                return False
+        # the DBAPI connection now belongs to the holder alone
+        if rec.dbapi_connection is not None or rec.fairy_ref is not None or fairy._connection_record is not None:
+            return False
+        if fairy.dbapi_connection is not conn or conn.closed or srv.creator_calls != calls0:
+            return False
+        for r in list(pool._pool.queue):
+            if r.dbapi_connection is conn:
+                return False
+        # closing the detached fairy closes the connection and does not touch the pool
+        fairy.close()
+        if not conn.closed or pool._overflow != O1 or pool.checkedin() != idle1 or pool.checkedout() != held0 - 1:
+            return False
+        for j in range(len(holders)):
+            if j != which and (holders[j].dbapi_connection is not held_conns[j] or held_conns[j].closed):
+                return False
+        return True
+
     # return-type operations need one materialised holder
     fairy = holders[which]
     rec = fairy._connection_record
     conn = fairy.dbapi_connection
     if op == "return":
         fairy.close()
+    elif op == "drop_gc":
+        # the holder forgets the fairy without closing it: the weakref finalizer returns the connection
+        fr = weakref.ref(fairy)
+        _unlist(fairy, holders, fairies, live)
+        fairy = None
+        assume(_gone(fr))
     elif op == "return_reset_fails":
         srv.faults[srv.calls + 1] = "error"  # the rollback-on-return raises
         fairy.close()
@@ -280,7 +378,7 @@ def _step(live, box, op, S, lifo, idle, nreal, M, O, empties, which):
         return False
     # the other holder is untouched
     for j in range(len(holders)):
-        if j != which and (holders[j].dbapi_connection is not held_conns[j] or held_conns[j].closed):
+        if j != which and holders[j] is not None and (holders[j].dbapi_connection is not held_conns[j] or held_conns[j].closed):
             return False
     return True
 
@@ -289,41 +387,87 @@ def _step(live, box, op, S, lifo, idle, nreal, M, O, empties, which):
 # short sequential histories from a fresh QueuePool against a counting model
 
 
-def h_history(S: int, M: int, lifo: bool, nops: int, op0: int, ops: List[int], whichs: List[int]) -> bool:
+HOPS = ["checkout", "return", "invalidate", "checkout_creator_fails", "detach", "drop_live_gc", "drop_released_gc"]
+
+_WHY: List[str] = []  # oracle clause that failed last (read by classify after a concrete re-run)
+
+
+def _no(reason: str) -> bool:
+    _WHY.append(reason)
+    return False
+
+
+def _halphabet(nh: int, nz: int):
+    """(op, index): 0 checkout, 3 checkout with a failing creator, 1 return / 2 invalidate / 4 detach / 5 drop without
+    close (+gc) live holder w, 6 drop (+gc) the z-th fairy object that was released earlier (returned, invalidated or
+    detached) but is still referenced -- its finalizer is *stale* and may run after the slot was checked out again."""
+    ops = [(0, 0), (3, 0)]
+    for w in range(nh):
+        for o in (1, 2, 4, 5):
+            ops.append((o, w))
+    for z in range(nz):
+        ops.append((6, z))
+    return ops
+
+
+def _hconnect(pool, live):
+    """-> ("ok", fairy) | ("timeout", None) | ("creator", None)"""
+    try:
+        f = pool.connect()
+    except sa_exc.TimeoutError:
+        return "timeout", None
+    except fakedb.OperationalError:
+        return "creator", None
+    live.append(f)
+    return "ok", f
+
+
+def _hdrop(lst, idx, live) -> bool:
+    """Forget fairy lst[idx] (no close) and let its finalizer run."""
+    r = weakref.ref(lst[idx])
+    for i in range(len(live)):
+        if live[i] is lst[idx]:
+            live.pop(i)
+            break
+    lst.pop(idx)
+    return _gone(r)
+
+
+def h_history(S: int, M: int, lifo: bool, nops: int, a0: int, b1: int, c1: int, c2: int, c3: int, c4: int) -> bool:
+    """nops operations from a fresh pool: the first one is alphabet entry a0, the second one lies in the b1-th third
+    of the alphabet (slicing only), c1..c4 select the others from the state-dependent alphabet of ``_halphabet``."""
     live: list = []
     try:
-        return _history(live, S, M, lifo, nops, op0, ops, whichs)
+        return _history(live, S, M, lifo, nops, a0, b1, [c1, c2, c3, c4])
     finally:
         _release(None, live)
 
 
-def _history(live, S, M, lifo, nops, op0, ops, whichs):
-    """ops: 0 checkout, 1 return holder[w], 2 invalidate holder[w], 3 checkout with a failing creator."""
-    assume(len(ops) == nops and len(whichs) == nops)
-    assume(ops[0] == op0)
+def _history(live, S, M, lifo, nops, a0, b1, codes):
     srv = _Srv()
     pool = sa_pool.QueuePool(srv.connect, pool_size=S, max_overflow=M, timeout=0, use_lifo=lifo)
-    holders = []  # fairies
+    holders = []  # live, non-detached fairies
+    zombies = []  # released fairy objects that are still referenced
     m_idle: List[int] = []  # model: connection ids in the queue, left = oldest returned; -1 = empty record
     m_held: List[int] = []
     m_over = -S
+    m_det = 0  # connections that left the pool through detach() and were not closed by their holder
+    det_conns = []
     for k in range(nops):
-        op = ops[k]
-        w = whichs[k]
-        assume(0 <= op <= 3)
-        op = int(op)
+        al = _halphabet(len(holders), len(zombies))
+        if k == 0:
+            assume(a0 < len(al))
+            op, w = al[a0]
+        elif k == 1:
+            lo, hi = (len(al) * b1) // 3, (len(al) * (b1 + 1)) // 3
+            assume(lo < hi)
+            op, w = al[lo + pick(codes[0], hi - lo)]
+        else:
+            op, w = al[pick(codes[k - 1], len(al))]
         if op in (0, 3):
-            assume(w == 0)
             srv.fail_connect = op == 3
             n0 = len(srv.connections)
-            try:
-                f = pool.connect()
-                live.append(f)
-                got = "ok"
-            except sa_exc.TimeoutError:
-                got = "timeout"
-            except fakedb.OperationalError:
-                got = "creator"
+            got, f = _hconnect(pool, live)
             srv.fail_connect = False
             if m_idle:
                 cid = m_idle[-1] if lifo else m_idle[0]
@@ -333,18 +477,12 @@ def _history(live, S, M, lifo, nops, op0, ops, whichs):
                 else:
                     exp = "creator" if op == 3 else "ok"
                     expid = n0
-                if exp == "ok":
-                    if lifo:
-                        m_idle.pop()
-                    else:
-                        m_idle.pop(0)
+                if lifo:
+                    m_idle.pop()
                 else:
-                    # the record goes back to the queue (at the "newest" end)
-                    if lifo:
-                        m_idle.pop()
-                    else:
-                        m_idle.pop(0)
-                    m_idle.append(-1)
+                    m_idle.pop(0)
+                if exp != "ok":
+                    m_idle.append(-1)  # the record goes back to the queue (at the "newest" end)
             elif M > -1 and m_over >= M:
                 exp = "timeout"
                 expid = -2
@@ -354,56 +492,79 @@ def _history(live, S, M, lifo, nops, op0, ops, whichs):
                 if exp == "ok":
                     m_over += 1
             if got != exp:
-                return False
+                return _no("checkout:outcome")
             if got == "ok":
                 if f.dbapi_connection.id != expid or f.dbapi_connection.closed:
-                    return False
+                    return _no("checkout:wrong-connection")
                 if expid in m_held:
-                    return False
+                    return _no("checkout:connection-already-held")
                 holders.append(f)
                 m_held.append(expid)
-        else:
-            assume(len(holders) > 0)
-            assume(0 <= w < len(holders))
-            w = int(w)
-            f = holders.pop(w)
+            f = None
+        elif op in (1, 2, 4, 5):
             cid = m_held.pop(w)
-            conn = f.dbapi_connection
+            conn = holders[w].dbapi_connection
             if op == 1:
-                f.close()
+                holders[w].close()
                 keep = cid
-            else:
-                f.invalidate()
+            elif op == 2:
+                holders[w].invalidate()
                 keep = -1
+            elif op == 4:
+                holders[w].detach()
+                keep = -1
+                if holders[w].dbapi_connection is not conn or holders[w]._connection_record is not None:
+                    return _no("detach:fairy-state")
+            else:
+                keep = cid
+            if op == 5:
+                assume(_hdrop(holders, w, live))
+            else:
+                zombies.append(holders.pop(w))
+            if op == 4:
+                m_det += 1
+                det_conns.append(conn)
+                if conn.closed:
+                    return _no("detach:connection-closed")
             if len(m_idle) < S:
                 m_idle.append(keep)
-                if conn.closed != (keep == -1):
-                    return False
+                if op != 4 and conn.closed != (keep == -1):
+                    return _no("return:connection-closed-state")
             else:
                 m_over -= 1
-                if not conn.closed:
-                    return False
+                if op != 4 and not conn.closed:
+                    return _no("return:overflow-connection-not-closed")
+            conn = None
+        else:
+            # a stale finalizer: nothing may change
+            assume(_hdrop(zombies, w, live))
         # compare with the model after every operation
         real_idle = [(-1 if c is None else c.id) for c in _idle_conns(pool)]
         if real_idle != m_idle:
-            return False
+            return _no("model:idle-queue")
         if pool.checkedin() != len(m_idle) or pool.checkedout() != len(m_held) or pool._overflow != m_over:
-            return False
+            return _no("model:counters")
         if pool.overflow() != m_over or pool.size() != S:
-            return False
+            return _no("model:counters")
         nopen = len(srv.open_connections())
-        if nopen != len(m_held) + len([x for x in m_idle if x >= 0]):
-            return False
-        if M > -1 and nopen > S + M:
-            return False
+        if nopen != len(m_held) + len([x for x in m_idle if x >= 0]) + m_det:
+            return _no("model:open-connections")
+        if M > -1 and nopen - m_det > S + M:
+            return _no("limit:open-connections")
         if len(m_idle) > S:
-            return False
-        # nobody shares a connection
-        cs = [h.dbapi_connection for h in holders]
+            return _no("limit:idle")
+        # nobody shares a connection: live checkouts, detached connections, idle records
+        cs = [h.dbapi_connection for h in holders] + det_conns + [c for c in _idle_conns(pool) if c is not None]
         for i in range(len(cs)):
             for j in range(i + 1, len(cs)):
                 if cs[i] is cs[j]:
-                    return False
+                    return _no("shared-connection")
+        for i in range(len(holders)):
+            rec = holders[i]._connection_record
+            if rec is None or rec.fairy_ref is None or rec.fairy_ref() is not holders[i] or holders[i].dbapi_connection.id != m_held[i]:
+                return _no("holder:record-no-longer-checked-out-by-it")
+            if rec.dbapi_connection is not holders[i].dbapi_connection or holders[i].dbapi_connection.closed:
+                return _no("holder:connection")
     return True
 
 
@@ -558,7 +719,8 @@ META = {
         "pool.impl.QueuePool.{__init__,_do_get,_do_return_conn,_inc_overflow,_dec_overflow,checkedout,checkedin,overflow,size}",
         "util.queue.Queue.{put,get,_full,_empty,_qsize,qsize,_put,_get} (FIFO and use_lifo=True)",
         "pool.base._ConnectionRecord.{checkout,checkin,_checkin_failed,get_connection,invalidate,close}",
-        "pool.base._ConnectionFairy.{_checkout,close,invalidate,_checkin}, pool.base._finalize_fairy",
+        "pool.base._ConnectionFairy.{_checkout,close,invalidate,detach,_checkin}, pool.base._finalize_fairy (explicit route, weakref/gc route, "
+        "stale-finalizer guard `connection_record.fairy_ref is not ref`)",
         "pool.impl.NullPool.{_do_get,_do_return_conn}", "pool.impl.StaticPool.{_do_get,_do_return_conn,connection}",
         "pool.impl.AssertionPool.{_do_get,_do_return_conn}",
         "pool.impl.SingletonThreadPool.{_do_get,_cleanup,_do_return_conn,connect}",
@@ -567,10 +729,12 @@ META = {
         "quick": {"pool_size": "1..4 (concrete per slice)", "max_overflow": "-1..3 symbolic", "_overflow": "symbolic, any integer allowed by the invariant",
                   "idle records": "0..pool_size, each with or without a DBAPI connection (symbolic)",
                   "materialised holders": "0..2 (the remaining held-nreal holders are implied by the counters)",
-                  "history": "<=4 ops over {checkout, return, invalidate, failing-creator checkout}, pool_size 1..2, max_overflow in {-1,0,1}",
+                  "history": "<=4 ops over {checkout, return, invalidate, failing-creator checkout, detach, drop a live fairy without close + gc, "
+                             "drop (+gc) a fairy object released earlier = stale finalizer, possibly after its slot was checked out again}, pool_size 1..2, max_overflow in {-1,0,1}",
+                  "step ops": STEP_OPS,
                   "simple pools": "<=4 ops"},
         "thorough": {"pool_size": "1..6", "max_overflow": "-1..3 symbolic", "_overflow": "symbolic", "idle records": "0..pool_size",
-                     "materialised holders": "0..2", "history": "<=5 ops, pool_size 1..3, max_overflow in {-1,0,1,2}", "simple pools": "<=5 ops"},
+                     "materialised holders": "0..2", "history": "<=5 ops (same alphabet), pool_size 1..3, max_overflow in {-1,0,1,2}", "simple pools": "<=5 ops"},
     },
     "outside": [
         "THREAD SCHEDULES (the property's stated quantifier): preemption between the unlocked read of _overflow in _do_get and "
@@ -583,7 +747,10 @@ META = {
     "assumptions": [
         "QueuePool representation invariant assumed for the pre-state and re-established by every step: -pool_size <= _overflow; "
         "_overflow <= max_overflow when max_overflow > -1; 0 <= idle <= pool_size; idle <= pool_size + _overflow "
-        "(checkedout() = pool_size - idle + _overflow >= number of live holders); idle and held records are disjoint",
+        "(checkedout() = pool_size - idle + _overflow >= number of live holders); idle and held records are disjoint; a released fairy object "
+        "that is still referenced has a weakref different from the fairy_ref of the record's current checkout",
+        "a fairy whose last reference is dropped is finalized immediately (CPython reference counting; gc.collect() as fallback) -- paths where it "
+        "is not are discarded",
         "induction: the fresh pool (_overflow = -pool_size, empty queue) satisfies the invariant; every sequential history is a chain of the verified steps",
     ],
 }
@@ -600,6 +767,9 @@ def harnesses(tier: str) -> List[Harness]:
                 for op in STEP_OPS:
                     if op.endswith("_overflow"):
                         step.append(dict(op=op, S=S, lifo=lifo, idle=idle, nreal=0))
+                    elif op.startswith("stale_"):
+                        for nreal in (1, 2):
+                            step.append(dict(op=op, S=S, lifo=lifo, idle=idle, nreal=nreal))
                     elif op.startswith("checkout"):
                         for nreal in (0, 1):
                             step.append(dict(op=op, S=S, lifo=lifo, idle=idle, nreal=nreal))
@@ -612,8 +782,9 @@ def harnesses(tier: str) -> List[Harness]:
     for S in ((1, 2) if q else (1, 2, 3)):
         for M in ((-1, 0, 1) if q else (-1, 0, 1, 2)):
             for lifo in (False, True):
-                for op0 in (0, 3):
-                    hist.append(dict(S=S, M=M, lifo=lifo, nops=n, op0=op0))
+                for a0 in (0, 1):
+                    for b1 in ((0, 1, 2) if a0 == 0 else (1, 2)):  # after a failed checkout the alphabet has 2 entries (thirds 1 and 2)
+                        hist.append(dict(S=S, M=M, lifo=lifo, nops=n, a0=a0, b1=b1))
     hs.append(Harness("history", h_history, hist, budget_s=150 if q else 900))
     simple = []
     for op1 in (0, 1, 2):
@@ -633,9 +804,36 @@ def classify(hname, args, rep):
                 "QueuePool step %s from pre-state S=%s idle=%s max_overflow=%s _overflow=%s empties=%s breaks the invariant/effect (%s)"
                 % (args["op"], args["S"], args["idle"], args.get("M"), args.get("O"), args.get("empties"), rep.get("exception")))
     if hname == "history":
-        return ("C25:history:%s:ops=%s" % ("lifo" if args["lifo"] else "fifo", args.get("ops")),
-                "QueuePool(pool_size=%s,max_overflow=%s,lifo=%s) history %s/%s disagrees with the counting model (%s)"
-                % (args["S"], args["M"], args["lifo"], args.get("ops"), args.get("whichs"), rep.get("exception")))
+        from vlib import symx
+
+        del _WHY[:]
+        symx.run_concrete(h_history, args)
+        why = _WHY[0] if _WHY else "exception:" + str(rep.get("exception"))[:60]
+        # re-decode the operations (checkout outcomes are needed for the alphabet: approximate by the model-free walk)
+        names = []
+        try:
+            nh = nz = 0
+            codes = [args.get("c%d" % i) for i in range(1, 5)]
+            for k in range(args["nops"]):
+                al = _halphabet(nh, nz)
+                if k == 1:
+                    lo, hi = (len(al) * args["b1"]) // 3, (len(al) * (args["b1"] + 1)) // 3
+                    al = al[lo:hi]
+                op, w = al[args["a0"]] if k == 0 else al[max(0, min(len(al) - 1, codes[k - 1]))]
+                names.append(HOPS[op] if op in (0, 3) else "%s(%d)" % (HOPS[op], w))
+                if op == 0:
+                    nh += 1  # (a checkout that times out leaves nh unchanged; the description is then approximate)
+                elif op in (1, 2, 4):
+                    nh, nz = nh - 1, nz + 1
+                elif op == 5:
+                    nh -= 1
+                elif op == 6:
+                    nz -= 1
+        except Exception:
+            pass
+        stale = "stale-finalizer" if any(n.startswith("drop_released") for n in names) else ("detach" if any(n.startswith("detach") for n in names) else "plain")
+        return ("C25:history:%s:%s:%s" % (why, "lifo" if args["lifo"] else "fifo", stale),
+                "QueuePool(pool_size=%s,max_overflow=%s,lifo=%s) history %s: %s" % (args["S"], args["M"], args["lifo"], names, why))
     return ("C25:%s:ops=%s" % (args.get("kind"), args.get("ops")),
             "%s history %s/%s violates its contract (%s)" % (args.get("kind"), args.get("ops"), args.get("whichs"), rep.get("exception")))
 
